@@ -136,7 +136,7 @@ def fileLines (f : List String) (h : Hdr) (label : String) (k : Nat) (fl : RecFi
     (frozen : Array Frz) (lepton : Bool) : List String :=
   let hasBg := true
   let nframes := fl.frames.length + 1
-  let head := s!"file {label} {k} device={kvS f "devname"} id={kvN f "devid"} serial={h.serial} firmware={hexStr h.firmware} " ++
+  let head := s!"file {label} {k} device={kvS f "devname"} id={kvN f "devid"} serial={h.serial % 4294967296} firmware={hexStr h.firmware} " ++
     s!"brand={hexStr h.brand} model={hexStr h.model} fps={h.fps} preview={kvN f "preview"} lat={kvN f "lat"} lon={kvN f "lon"} " ++
     s!"alt={kvN f "alt"} acc={kvN f "acc"} resx={h.resx} resy={h.resy} hasbg={hasBg} nframes={nframes} motion={hexStr (motionYaml f h.model fl.thresh)}"
   let bgLine := s!"fr {label} {k} 0 bg=1 ton=0 lffc=0 t=0 tl=0 pix={pixHex bg}"
